@@ -95,7 +95,8 @@ def stateOfJson (j : Json) : Except String (Option FrameState) :=
       | [l, d] => do let l ← l.getStr?; let d ← d.getStr?; pure (l.toList, d.toList)
       | _ => throw "state column must be [label, dtype]")
     let e ← getBool j "empty"
-    pure (some ⟨cols, e⟩)
+    let st ← getBool j "strict"
+    pure (some ⟨cols, e, st⟩)
 
 /-- allocate one source info with objects of its own -/
 def allocInfo (h : Heap) (j : Json) : Except String Heap := do
@@ -225,7 +226,7 @@ def step (h : Heap) (j : Json) : Except String (Heap × Json) := do
   | "consult" =>
     let i ← getNat j "info"
     let fr ← frameOfJson (← j.getObjVal? "frame")
-    match checkDataframe h i fr with
+    match mutate h i (.consult fr) with
     | .error e => pure (h, exc (errName e))
     | .ok h1 => pure (h1, "ok")
   | "observe" =>
